@@ -26,7 +26,8 @@ Edit a single block's contents.
 
 
 import logging
-from typing import Container, List, MutableMapping, Optional, Set
+import uuid
+from typing import Container, Dict, List, MutableMapping, Optional, Set
 
 import gtirb
 from more_itertools import pairwise
@@ -80,6 +81,10 @@ def _add_return_edges_for_patch_calls(
         for edge in new_cfg
         if _is_fallthrough_edge(edge)
     }
+    # The new return edges only go into the patch's CFG for now, so a callee
+    # has to be given all of its new return sites at once: after the first one
+    # its returns no longer have a return edge in the IR to be found by.
+    return_targets_by_func: Dict[uuid.UUID, List[gtirb.CfgNode]] = {}
     for call_edge in call_edges:
         if not isinstance(call_edge.target, gtirb.CodeBlock):
             continue
@@ -92,8 +97,13 @@ def _add_return_edges_for_patch_calls(
         if not fallthrough_target:
             continue
 
+        return_targets_by_func.setdefault(func_uuid, []).append(
+            fallthrough_target
+        )
+
+    for func_uuid, return_targets in return_targets_by_func.items():
         add_return_edges_to_callee(
-            cache, module, func_uuid, fallthrough_target, new_cfg
+            cache, module, func_uuid, return_targets, new_cfg
         )
 
 
